@@ -104,6 +104,39 @@ def check_single(args):
             ex = C.get_exons((l[0][0], l[-1][1]), j)
             if pos(ex) != P:
                 rep("get_exons", [(l[0][0], l[-1][1]), j], ex, l)
+            # single exons from the junction list: exon k is the k-th block; position -1 = the last intron / the last exon
+            region = (l[0][0], l[-1][1])
+            lm = []                       # the maximal intervals of P (adjacent blocks of the list have no junction between them)
+            for a, b in l:
+                if lm and lm[-1][1] + 1 == a:
+                    lm[-1] = (lm[-1][0], b)
+                else:
+                    lm.append((a, b))
+            for k in list(range(len(j))) + [-1]:
+                n += 1
+                for fn, exp in ((C.get_following_exon_from_junctions, lm[k + 1] if k >= 0 else lm[-1]),):
+                    try:
+                        got = guarded(fn, region, j, k)
+                    except Exception as e:  # noqa
+                        got = "EXC " + repr(e)
+                    if got != tuple(exp):
+                        rep(fn.__name__, [region, j, k], got, tuple(exp))
+            for k in range(len(j) + 1):
+                n += 1
+                try:
+                    got = guarded(C.get_preceding_exon_from_junctions, region, j, k)
+                except Exception as e:  # noqa
+                    got = "EXC " + repr(e)
+                if got != tuple(lm[k]):
+                    rep("get_preceding_exon_from_junctions", [region, j, k], got, tuple(lm[k]))
+            for k in list(range(len(j) + 1)) + [-1, -len(j) - 1]:
+                n += 1
+                try:
+                    got = guarded(C.get_exon, region, j, k)
+                except Exception as e:  # noqa
+                    got = "EXC " + repr(e)
+                if got != tuple(lm[k]):
+                    rep("get_exon", [region, j, k], got, tuple(lm[k]))
         for p in range(0, U + 2):
             n += 1
             try:
